@@ -30,6 +30,21 @@ from PseudoNetCDF.cmaqfiles import ioapi_base
 # for use in identifying uncaught nan
 
 
+def _headermap(path, mode, fmt, shape, offset):
+    """
+    A header record as a memory map. A header that is not wholly in the file
+    (a truncated file) is an error: opened for update (mode r+), numpy would
+    extend the file on disk to hold the map.
+    """
+    import os
+    size = os.path.getsize(path)
+    if offset + fmt.itemsize * shape > size:
+        raise ValueError(
+            ('incomplete file: a header of %d bytes at byte %d, ' +
+             'the file has %d bytes') % (fmt.itemsize * shape, offset, size))
+    return memmap(path, mode=mode, dtype=fmt, shape=shape, offset=offset)
+
+
 class uamiv(ioapi_base):
     """
     uamiv provides a PseudoNetCDF interface for CAMx
@@ -251,15 +266,13 @@ class uamiv(ioapi_base):
     def __readheader(self):
         ep = self.__endianprefix
         offset = 0
-        self.__emiss_hdr = memmap(
-            self.__rffile, mode=self.__mode, dtype=self.__emiss_hdr_fmt,
-            shape=1, offset=offset)
+        self.__emiss_hdr = _headermap(
+            self.__rffile, self.__mode, self.__emiss_hdr_fmt, 1, offset)
         nspec = self.__emiss_hdr['nspec'][0]
         offset += self.__emiss_hdr.dtype.itemsize * self.__emiss_hdr.size
 
-        self.__grid_hdr = memmap(
-            self.__rffile, mode=self.__mode, dtype=self.__grid_hdr_fmt,
-            shape=1, offset=offset)
+        self.__grid_hdr = _headermap(
+            self.__rffile, self.__mode, self.__grid_hdr_fmt, 1, offset)
 
         self.XORIG = self.__grid_hdr['xorg'][0]
         self.YORIG = self.__grid_hdr['yorg'][0]
@@ -305,14 +318,12 @@ class uamiv(ioapi_base):
         nz = max(self.__grid_hdr['nz'], array([1]))[0]
 
         offset += self.__grid_hdr.dtype.itemsize * self.__grid_hdr.size
-        self.__cell_hdr = memmap(
-            self.__rffile, mode=self.__mode, dtype=self.__cell_hdr_fmt,
-            shape=1, offset=offset)
+        self.__cell_hdr = _headermap(
+            self.__rffile, self.__mode, self.__cell_hdr_fmt, 1, offset)
 
         offset += self.__cell_hdr.dtype.itemsize * self.__cell_hdr.size + 4
-        self.__spc_hdr = memmap(self.__rffile, mode=self.__mode,
-                                dtype=self.__spc_fmt, shape=nspec,
-                                offset=offset)
+        self.__spc_hdr = _headermap(
+            self.__rffile, self.__mode, self.__spc_fmt, nspec, offset)
 
         offset += self.__spc_hdr.dtype.itemsize * self.__spc_hdr.size + 4
 
